@@ -143,18 +143,66 @@ pub fn stream_iv(ctx: &mut Ctx, fl: Flavor, b: usize) -> (Vec<u8>, &'static str)
     if fl == Flavor::Belt && ctx.rc.has_d() && ctx.rng.chance(2, 3) {
         let w = ctx.cfg.par.max(1) as u128;
         let k = ctx.rng.below(3 * w as usize + 4) as u128;
-        let cands: [(u128, &str); 6] = [
+        let cands: [(u128, &str); 7] = [
             (u128::MAX, "s0=2^128-1"),
             (u128::MAX - 1, "s0=2^128-2"),
             (u128::MAX - k, "s0~2^128-k"),
             ((1u128 << 64) - 1 - k, "s0~2^64-k"),
             ((1u128 << 32) - 1 - k, "s0~2^32-k"),
             ((1u128 << 96) - 1 - k, "s0~2^96-k"),
+            (k, "s0~0+k"),
         ];
         let (t, c) = *ctx.rng.pick(&cands);
         let mut blk = t.to_le_bytes().to_vec();
         ctx.rc.d(&mut blk);
         return (blk, c);
     }
+    if fl != Flavor::Belt && ctx.rc.has_d() && b >= 8 && ctx.rng.chance(1, 10) {
+        // first counter block := D(pattern): the first keystream block has a zero 64-bit word
+        return (crafted_preimage(ctx, b), "E(IV)=zero-word");
+    }
     wl::ctr_iv(&mut ctx.rng, fl, b)
+}
+
+/// a block X with E(X) = a pattern containing an all-zero (or all-ones) aligned 64-bit word:
+/// values only the owner of D can produce; bait for "skip the XOR when the word is zero" shortcuts
+pub fn crafted_preimage(ctx: &mut Ctx, b: usize) -> Vec<u8> {
+    let mut p = ctx.rng.bytes(b);
+    let words = b / 8;
+    match ctx.rng.below(5) {
+        0 => p[..8].fill(0),
+        1 => p[(words - 1) * 8..words * 8].fill(0),
+        2 => p.fill(0),
+        3 => p.fill(0xFF),
+        _ => {
+            let w = ctx.rng.below(words);
+            p[w * 8..w * 8 + 8].fill(0);
+        }
+    }
+    ctx.rc.d(&mut p);
+    p
+}
+
+/// IV for a block-level mode: ordinary classes, plus (rarely) an IV crafted with D so that E(IV)
+/// contains a zero 64-bit word
+pub fn mode_iv(ctx: &mut Ctx, iv_len: usize) -> (Vec<u8>, &'static str) {
+    let b = ctx.cfg.bs;
+    if ctx.rc.has_d() && b >= 8 && iv_len == b && ctx.rng.chance(1, 8) {
+        return (crafted_preimage(ctx, b), "E(IV)=zero-word");
+    }
+    wl::iv(&mut ctx.rng, iv_len)
+}
+
+/// data for a mode: ordinary classes, plus (rarely) one block replaced by D(pattern), so that
+/// feeding it back through E gives a block with a zero 64-bit word
+pub fn mode_data(ctx: &mut Ctx, len: usize) -> (Vec<u8>, &'static str) {
+    let b = ctx.cfg.bs;
+    let (mut d, c) = wl::data(&mut ctx.rng, len);
+    if ctx.rc.has_d() && b >= 8 && len >= b && len <= 65536 && ctx.rng.chance(1, 10) {
+        let j = ctx.rng.below(len / b);
+        let x = crafted_preimage(ctx, b);
+        d[j * b..(j + 1) * b].copy_from_slice(&x);
+        return (d, "E(block_j)=zero-word");
+    }
+    (d, c)
 }
